@@ -5,6 +5,7 @@ import (
 	"sort"
 	"strings"
 
+	"github.com/youzan/ZanRedisDB/cluster"
 	"verif/harness/internal/hx"
 )
 
@@ -19,6 +20,28 @@ type gen struct {
 	kinds   string
 	queue   []func(in *inst) event // pending events of a scenario script
 	lnodes  map[int]bool           // registered learner nodes (number >= 100) -> has this driver's role
+	pnum    int                    // partitions 0..pnum-1
+}
+
+func (g *gen) pid() int { return g.r.Pick(g.pnum) }
+
+func storedInfo(in *inst, pid int) *cluster.PartitionMetaInfo { return in.reg.stored(pid) }
+
+// learner numbers present in the learner list of EVERY partition
+func learnersEverywhere(in *inst) map[int]bool {
+	cnt := map[int]int{}
+	for pid := 0; pid < in.pnum; pid++ {
+		for _, n := range storedInfo(in, pid).LearnerNodes[learnerRole] {
+			cnt[kOf(n)]++
+		}
+	}
+	out := map[int]bool{}
+	for k, c := range cnt {
+		if c == in.pnum {
+			out[k] = true
+		}
+	}
+	return out
 }
 
 func (g *gen) learnerField() string {
@@ -43,17 +66,10 @@ func (g *gen) learnerField() string {
 
 func (g *gen) nEvent(data []int) event { return event{"N", []string{joinInts(data), g.learnerField()}} }
 
-func (g *gen) initEvent() event {
+// one partition's start layout: "nodes;ids;removings;maxid;learners"
+func (g *gen) initPart(lrn []int) string {
 	r := g.r
-	g.replica = 1 + r.Pick(5)
 	minNodes := g.replica/2 + 1
-	g.m = g.replica + r.Pick(4)
-	if r.Chance(0.15) && g.replica-1 >= minNodes {
-		g.m = g.replica - 1
-	}
-	if g.m > 8 {
-		g.m = 8
-	}
 	// replica count: mostly exactly replica, sometimes under/over replicated
 	c := g.replica
 	switch r.Pick(6) {
@@ -85,16 +101,10 @@ func (g *gen) initEvent() event {
 	for i, n := range nodes {
 		idp = append(idp, fmt.Sprintf("%d:%d", n, ids[i]))
 	}
-	// sometimes the layout already has learners (their ids come from the same counter)
-	g.lnodes = map[int]bool{}
-	var lrn []int
-	if strings.Contains(g.kinds, "L") && r.Chance(0.2) {
-		for k := 101; k < 101+1+r.Pick(2); k++ {
-			next += 1 + r.Pick(2)
-			lrn = append(lrn, k)
-			idp = append(idp, fmt.Sprintf("%d:%d", k, next))
-			g.lnodes[k] = true
-		}
+	// learners of the layout (their ids come from the same counter)
+	for _, k := range lrn {
+		next += 1 + r.Pick(2)
+		idp = append(idp, fmt.Sprintf("%d:%d", k, next))
 	}
 	maxid := next + r.Pick(3)
 	rm := "-"
@@ -102,6 +112,29 @@ func (g *gen) initEvent() event {
 		i := r.Pick(c)
 		st := []int{clock0, clock0 - 3, clock0 - 6, clock0 - 30, 0}[r.Pick(5)]
 		rm = fmt.Sprintf("%d:%d:%d", nodes[i], ids[i], st)
+	}
+	return fmt.Sprintf("%s;%s;%s;%d;%s", joinInts(nodes), strings.Join(idp, ","), rm, maxid, joinInts(lrn))
+}
+
+func (g *gen) initEvent() event {
+	r := g.r
+	g.replica = 1 + r.Pick(5)
+	minNodes := g.replica/2 + 1
+	g.m = g.replica + r.Pick(4)
+	if r.Chance(0.15) && g.replica-1 >= minNodes {
+		g.m = g.replica - 1
+	}
+	if g.m > 8 {
+		g.m = 8
+	}
+	g.pnum = []int{1, 1, 1, 2, 2, 3}[r.Pick(6)]
+	g.lnodes = map[int]bool{}
+	var lrn []int
+	if strings.Contains(g.kinds, "L") && r.Chance(0.2) {
+		for k := 101; k < 101+1+r.Pick(2); k++ {
+			lrn = append(lrn, k)
+			g.lnodes[k] = true
+		}
 	}
 	auto := "1"
 	if r.Chance(0.1) {
@@ -112,7 +145,11 @@ func (g *gen) initEvent() event {
 		ver = "v1"
 	}
 	g.httpDn = map[int]bool{}
-	return event{"I", []string{fmt.Sprint(g.replica), joinInts(nodes), strings.Join(idp, ","), rm, fmt.Sprint(maxid), auto, ver, joinInts(lrn)}}
+	f := []string{fmt.Sprint(g.replica), auto, ver}
+	for p := 0; p < g.pnum; p++ {
+		f = append(f, g.initPart(lrn))
+	}
+	return event{"I", f}
 }
 
 func (g *gen) allNodes() []int {
@@ -123,11 +160,9 @@ func (g *gen) allNodes() []int {
 	return l
 }
 
-// answers of converged data nodes: every reachable node reports the given member list and synced
-func (g *gen) converge(in *inst, withRemoving bool) event {
-	in.reg.mu.Lock()
-	info := in.reg.info.DeepClone()
-	in.reg.mu.Unlock()
+// answers of converged data nodes: every reachable node reports, per partition, the member list and synced
+func (g *gen) convergePart(in *inst, pid int, withRemoving bool) string {
+	info := storedInfo(in, pid)
 	var ms []string
 	for _, n := range info.RaftNodes {
 		if _, rm := info.Removings[n]; rm && !withRemoving {
@@ -148,44 +183,56 @@ func (g *gen) converge(in *inst, withRemoving bool) event {
 			p = append(p, fmt.Sprintf("%d=%s/1", k, mstr))
 		}
 	}
-	return event{"A", []string{strings.Join(p, ";")}}
+	return fmt.Sprintf("%d@%s", pid, strings.Join(p, ";"))
+}
+
+func (g *gen) converge(in *inst, withRemoving bool) event {
+	var f []string
+	for pid := 0; pid < g.pnum; pid++ {
+		f = append(f, g.convergePart(in, pid, withRemoving))
+	}
+	return event{"A", f}
 }
 
 func (g *gen) perturb(in *inst) event {
 	r := g.r
 	k := 1 + r.Pick(g.m)
-	in.reg.mu.Lock()
-	info := in.reg.info.DeepClone()
-	in.reg.mu.Unlock()
+	pid := g.pid()
+	info := storedInfo(in, pid)
 	var ms []string
 	for _, n := range info.RaftNodes {
 		ms = append(ms, fmt.Sprintf("%d:%d", kOf(n), info.RaftIDs[n]))
 	}
 	sort.Strings(ms)
+	one := func(a string) event { return event{"A", []string{fmt.Sprintf("%d@%s", pid, a)}} }
 	switch r.Pick(7) {
 	case 0:
 		g.httpDn[k] = true
-		return event{"A", []string{fmt.Sprintf("%d=!", k)}}
+		var f []string
+		for p := 0; p < g.pnum; p++ {
+			f = append(f, fmt.Sprintf("%d@%d=!", p, k))
+		}
+		return event{"A", f}
 	case 1:
-		return event{"A", []string{fmt.Sprintf("%d=x/%d", k, r.Pick(2))}}
+		return one(fmt.Sprintf("%d=x/%d", k, r.Pick(2)))
 	case 2:
 		if len(ms) > 0 {
-			return event{"A", []string{fmt.Sprintf("%d=%s/0", k, strings.Join(ms, ","))}}
+			return one(fmt.Sprintf("%d=%s/0", k, strings.Join(ms, ",")))
 		}
 	case 3:
 		// lagging view: one member missing
 		if len(ms) > 1 {
 			i := r.Pick(len(ms))
 			l := append(append([]string{}, ms[:i]...), ms[i+1:]...)
-			return event{"A", []string{fmt.Sprintf("%d=%s/1", k, strings.Join(l, ","))}}
+			return one(fmt.Sprintf("%d=%s/1", k, strings.Join(l, ",")))
 		}
 	case 4:
 		// a member with an unexpected replica id (0 .. max+1) for some cluster node
 		l := append([]string{}, ms...)
 		l = append(l, fmt.Sprintf("%d:%d", 1+r.Pick(g.m), r.Pick(int(info.MaxRaftID)+2)))
-		return event{"A", []string{fmt.Sprintf("%d=%s/1", k, strings.Join(l, ","))}}
+		return one(fmt.Sprintf("%d=%s/1", k, strings.Join(l, ",")))
 	case 5:
-		return event{"A", []string{fmt.Sprintf("%d=-/1", k)}}
+		return one(fmt.Sprintf("%d=-/1", k))
 	}
 	g.httpDn[k] = false
 	return g.converge(in, r.Chance(0.5))
@@ -244,12 +291,7 @@ func (g *gen) nodesEvent(in *inst) event {
 // the ids they get follow Go's map iteration order in doCheckNamespacesForLearner.
 func (g *gen) learnerNodesEvent(in *inst) event {
 	r := g.r
-	in.reg.mu.Lock()
-	reg := map[int]bool{}
-	for _, n := range in.reg.info.LearnerNodes[learnerRole] {
-		reg[kOf(n)] = true
-	}
-	in.reg.mu.Unlock()
+	reg := learnersEverywhere(in)
 	pending := false
 	for k, same := range g.lnodes {
 		if same && !reg[k] {
@@ -293,7 +335,7 @@ func (g *gen) has(k string) bool { return strings.Contains(g.kinds, k) }
 
 func (g *gen) script(in *inst) {
 	r := g.r
-	check := func(in *inst) event { return event{"C", []string{"1", "0", "", ""}} }
+	check := func(in *inst) event { return event{"C", []string{"", ""}} }
 	tick := func(d int) func(in *inst) event {
 		return func(in *inst) event { return event{"T", []string{fmt.Sprint(d)}} }
 	}
@@ -307,9 +349,7 @@ func (g *gen) script(in *inst) {
 		return g.nEvent(g.allNodes())
 	}
 	loseReplica := func(in *inst) event {
-		in.reg.mu.Lock()
-		nodes := append([]string{}, in.reg.info.RaftNodes...)
-		in.reg.mu.Unlock()
+		nodes := append([]string{}, storedInfo(in, g.pid()).RaftNodes...)
 		st := in.coord.VerifState()
 		cur := map[int]bool{}
 		for _, n := range st.DataNodes {
@@ -346,12 +386,10 @@ func (g *gen) script(in *inst) {
 						}
 					}
 				} else {
-					in.reg.mu.Lock()
-					ls := in.reg.info.LearnerNodes[learnerRole]
+					ls := storedInfo(in, g.pid()).LearnerNodes[learnerRole]
 					if len(ls) > 0 {
 						delete(g.lnodes, kOf(ls[0]))
 					}
-					in.reg.mu.Unlock()
 				}
 				var l []int
 				for _, n := range in.coord.VerifState().DataNodes {
@@ -375,7 +413,7 @@ func (g *gen) script(in *inst) {
 		if !g.has("B") {
 			return
 		}
-		bal := func(in *inst) event { return event{"B", []string{""}} }
+		bal := func(in *inst) event { return event{"B", []string{"", ""}} }
 		g.queue = []func(in *inst) event{allUp, conv(false), check, check, bal, conv(false), bal, conv(false), tick(6), check, check, bal,
 			conv(false), check, bal}
 	default: // decommission a node that holds a replica
@@ -383,9 +421,7 @@ func (g *gen) script(in *inst) {
 			return
 		}
 		mark := func(in *inst) event {
-			in.reg.mu.Lock()
-			nodes := append([]string{}, in.reg.info.RaftNodes...)
-			in.reg.mu.Unlock()
+			nodes := append([]string{}, storedInfo(in, g.pid()).RaftNodes...)
 			k := 1 + r.Pick(g.m)
 			if len(nodes) > 0 && r.Chance(0.8) {
 				k = kOf(nodes[r.Pick(len(nodes))])
@@ -395,7 +431,7 @@ func (g *gen) script(in *inst) {
 			}
 			return event{"K", []string{fmt.Sprint(k)}}
 		}
-		proc := func(in *inst) event { return event{"P", []string{""}} }
+		proc := func(in *inst) event { return event{"P", []string{"", ""}} }
 		g.queue = []func(in *inst) event{allUp, conv(false), check, mark, proc, conv(false), proc, conv(false), tick(6), check, proc,
 			conv(false), proc, proc, proc}
 	}
@@ -434,9 +470,7 @@ func (g *gen) next(in *inst) event {
 
 // an existing learner of the stored layout (70%) or any learner number
 func (g *gen) pickLearner(in *inst) int {
-	in.reg.mu.Lock()
-	ls := append([]string{}, in.reg.info.LearnerNodes[learnerRole]...)
-	in.reg.mu.Unlock()
+	ls := append([]string{}, storedInfo(in, g.pid()).LearnerNodes[learnerRole]...)
 	if len(ls) > 0 && g.r.Chance(0.7) {
 		return kOf(ls[g.r.Pick(len(ls))])
 	}
@@ -448,9 +482,9 @@ func (g *gen) next1(in *inst, kind string) event {
 	switch kind {
 	case "C":
 		if r.Chance(0.7) {
-			return event{"C", []string{"1", "0", "", ""}}
+			return event{"C", []string{"", ""}}
 		}
-		return event{"C", []string{"0", "1", "", ""}}
+		return event{"CS", []string{fmt.Sprint(g.pid()), "", ""}}
 	case "T":
 		return event{"T", []string{fmt.Sprint([]int{3, 6, 18, 30}[r.Pick(4)])}}
 	case "Ac":
@@ -464,7 +498,7 @@ func (g *gen) next1(in *inst, kind string) event {
 		if r.Chance(0.2) {
 			d = 1
 		}
-		return event{"M", []string{fmt.Sprint(d), ""}}
+		return event{"M", []string{fmt.Sprint(g.pid()), fmt.Sprint(d), ""}}
 	case "K":
 		// at most one node is being removed from the cluster at a time: with two, which one
 		// checkIfAnyPending marks "pending" follows Go's map iteration order
@@ -474,9 +508,9 @@ func (g *gen) next1(in *inst, kind string) event {
 		}
 		return event{"K", []string{fmt.Sprint(k)}}
 	case "D", "R":
-		return event{kind, []string{fmt.Sprint(1 + r.Pick(g.m))}}
+		return event{kind, []string{fmt.Sprint(g.pid()), fmt.Sprint(1 + r.Pick(g.m))}}
 	case "F":
-		return event{"F", []string{"-"}}
+		return event{"F", []string{fmt.Sprint(g.pid())}}
 	case "X":
 		return event{"X", []string{fmt.Sprint(1 + r.Pick(2))}}
 	case "O":
@@ -500,12 +534,7 @@ func (g *gen) next1(in *inst, kind string) event {
 		return event{"U", []string{"1"}}
 	case "LC":
 		// never let doCheckNamespacesForLearner see two nodes waiting to be added (Go map order decides their ids)
-		in.reg.mu.Lock()
-		reg := map[int]bool{}
-		for _, n := range in.reg.info.LearnerNodes[learnerRole] {
-			reg[kOf(n)] = true
-		}
-		in.reg.mu.Unlock()
+		reg := learnersEverywhere(in)
 		var pend []int
 		for k, same := range g.lnodes {
 			if same && !reg[k] {
@@ -525,9 +554,9 @@ func (g *gen) next1(in *inst, kind string) event {
 			sort.Ints(l)
 			return g.nEvent(l)
 		}
-		return event{"LC", []string{"-"}}
+		return event{"LC", []string{""}}
 	case "LX":
-		return event{kind, []string{"-"}}
+		return event{kind, []string{fmt.Sprint(g.pid())}}
 	case "LS":
 		b := "1"
 		if r.Chance(0.25) {
@@ -537,15 +566,15 @@ func (g *gen) next1(in *inst, kind string) event {
 	case "Ln":
 		return g.learnerNodesEvent(in)
 	case "LA":
-		return event{kind, []string{fmt.Sprint(101 + r.Pick(4))}}
+		return event{kind, []string{fmt.Sprint(g.pid()), fmt.Sprint(101 + r.Pick(4))}}
 	case "LL":
-		return event{kind, []string{fmt.Sprint(g.pickLearner(in))}}
+		return event{kind, []string{fmt.Sprint(g.pid()), fmt.Sprint(g.pickLearner(in))}}
 	case "LR":
-		return event{"LR", []string{fmt.Sprint(g.pickLearner(in)), fmt.Sprint(r.Pick(2))}}
+		return event{"LR", []string{fmt.Sprint(g.pid()), fmt.Sprint(g.pickLearner(in)), fmt.Sprint(r.Pick(2))}}
 	case "B":
-		return event{"B", []string{""}}
+		return event{"B", []string{"", ""}}
 	case "P":
-		return event{"P", []string{""}}
+		return event{"P", []string{"", ""}}
 	}
 	panic("no kind")
 }
